@@ -29,6 +29,12 @@ theorem knapsack_step_unit (rnd : Rat → Rat) (dense : Bool) (s : State) (a : I
 example : validDraw 2 [1/2, 1/4] [1, 0] := by decide +kernel
 example : UnitItems ⟨[1/2, 1/4], [1, 1], [false, true], 1/2⟩ := by decide +kernel
 
+/-! NOTE on what the membership theorems of this section do and do not cover (audits r4 #6, r5 #6, r6 #8): the dtype tag of every leaf
+is written by `toNValue` (by construction) — a wrong dtype in the real code cannot falsify `….valid (toNValue …) = true`; dtypes and
+field order of the real observations are compared by the `knapsack.state` op (`nvalue`: field order, shape, dtype, data; harness/spec_wave3.py,
+wave3_routing.py) and `jax.eval_shape` in the sweeps.  Shapes are READ OFF the value by `toNValue` (widths off the first row): see
+`…_obs_valid_only`. -/
+
 /-! #### full spec membership (structure, shapes, dtypes, bounds) — Env/Knapsack/Spec.lean
 
 `obsSpec n` / `actionSpec n` are the declared `observation_spec` / `action_spec` of a `num_items = n` environment as values
@@ -37,11 +43,18 @@ every shape read off the value; `Nested.valid` is the transliteration of `valida
 
 open Sp PzS in
 /-- the symbolic specs ARE the specs generated from the real spec objects (Gen/Specs.lean) for the catalogue
-configuration `knapsack-8` -/
+configuration `knapsack-8` and the spec-only configuration with 5 items (two sizes), reward and discount specs included -/
 theorem knapsack_obsSpec_generated :
     prefixed "observation_spec." (obsSpec 8) = declared "knapsack-8" "observation_spec." ∧
-    [("action_spec", actionSpec 8)] = declared "knapsack-8" "action_spec" := by
-  refine ⟨by decide, by decide⟩
+    [("action_spec", actionSpec 8)] = declared "knapsack-8" "action_spec" ∧
+    [("reward_spec", rewardSpec)] = declared "knapsack-8" "reward_spec" ∧
+    [("discount_spec", discountSpec)] = declared "knapsack-8" "discount_spec" ∧
+    prefixed "observation_spec." (obsSpec 5) = declared "spec-only-knapsack-5" "observation_spec." ∧
+    [("action_spec", actionSpec 5)] = declared "spec-only-knapsack-5" "action_spec" ∧
+    [("reward_spec", rewardSpec)] = declared "spec-only-knapsack-5" "reward_spec" ∧
+    [("discount_spec", discountSpec)] = declared "spec-only-knapsack-5" "discount_spec" := by
+  refine ⟨by decide +kernel, by decide +kernel, by decide +kernel, by decide +kernel,
+    by decide +kernel, by decide +kernel, by decide +kernel, by decide +kernel⟩
 
 /-- the `reset` observation — every number of items, every budget, every valid draw — is accepted by
 `observation_spec.validate`: four fields of shape `(n,)`, dtypes float32/float32/bool/bool, all values in [0, 1] -/
@@ -67,7 +80,10 @@ theorem knapsack_obs_valid_along (n : Nat) (rnd : Rat → Rat) (dense : Bool) (b
     (Knapsack.specInv_along n rnd dense _ as (Knapsack.reset_specInv n budget w v h))
 
 /-- what membership means (so the theorems above are not hollow): `validate` accepts an observation ONLY IF all four
-fields have exactly `n` entries and weights and values lie in [0, 1] -/
+fields have exactly `n` entries and weights and values lie in [0, 1]  CAVEAT (audits r4 #7, r5 #5, r6 #5): for every field that is a nested list, `toNValue` reads the widths off the FIRST row of the
+nested list, so the shape conjuncts here mean "row count, length of the first row, total number of cells" — a ragged value with the right total can be a
+member, and nothing is concluded about the later rows.  Rectangularity is part of the invariant (`SpecInv` / `Shaped` / `Rect…`) under which the
+forward theorems (`…_reset_obs_valid`, `…_step_obs_valid`, `…_along`) are proved, i.e. it holds of every EMITTED observation. -/
 theorem knapsack_obs_valid_only (n : Nat) (o : Obs) (h : (obsSpec n).valid (toNValue o) = true) :
     o.weights.length = n ∧ o.values.length = n ∧ o.packed.length = n ∧ o.mask.length = n ∧
     (∀ x ∈ o.weights, 0 ≤ x ∧ x ≤ 1) ∧ (∀ x ∈ o.values, 0 ≤ x ∧ x ≤ 1) := Knapsack.obs_valid_only n o h
@@ -138,6 +154,45 @@ theorem knapsack_remaining_nonneg (rnd : Rat → Rat) (hmono : ∀ x y, x ≤ y 
 theorem knapsack_remaining_nonneg_roundF32 (dense : Bool) (s : State) (a : Nat) (hr : 0 ≤ s.remaining)
     (hl : legal s a) : 0 ≤ (step Jx.roundF32 dense s a).1.remaining :=
   Knapsack.remaining_nonneg Jx.roundF32 (fun _ _ h => Jx.roundF32_mono h) Jx.roundF32_zero dense s a hr hl
+
+/-- ALONG WHOLE PLAYS (audit r4 #2), any monotone rounding fixing 0: in every state of a mask-respecting play from a state with a
+non-negative budget, the bookkeeping `remaining_budget` is non-negative.  NOTE: this is about the BOOKKEEPING value; "packed weight ≤
+budget" (`knapsack_feasible_along`) is proved for exact arithmetic (`rnd = id`) only, and is FALSE for some monotone roundings fixing
+0: `knapsack_rounding_overshoot_witness`. -/
+theorem knapsack_remaining_nonneg_along (rnd : Rat → Rat) (hmono : ∀ x y, x ≤ y → rnd x ≤ rnd y) (h0 : rnd 0 = 0)
+    (dense : Bool) (s : State) (as : List Nat) (hr : 0 ≤ s.remaining) (hp : LegalPlay rnd dense s as) :
+    ∀ s' ∈ statesAlong rnd dense s as, 0 ≤ s'.remaining :=
+  Knapsack.remaining_nonneg_along rnd hmono h0 dense as s hr hp
+
+/-- … for the float32 model, from `reset` of EVERY valid draw of the generator with a non-negative budget -/
+theorem knapsack_remaining_nonneg_along_roundF32 (dense : Bool) (n : Nat) (b : Rat) (w v : List Rat) (hb : 0 ≤ b)
+    (as : List Nat) (hp : LegalPlay Jx.roundF32 dense (generate n b w v) as) :
+    ∀ s' ∈ statesAlong Jx.roundF32 dense (generate n b w v) as, 0 ≤ s'.remaining :=
+  Knapsack.remaining_nonneg_along Jx.roundF32 (fun _ _ h => Jx.roundF32_mono h) Jx.roundF32_zero dense as _
+    (by simpa [generate] using hb) hp
+
+/-- "round up to quarters": monotone, fixes 0 -/
+def knapsackRoundUpQuarters (x : Rat) : Rat := ((Rat.ceil (4 * x) : Int) : Rat) / 4
+
+theorem knapsackRoundUpQuarters_mono (x y : Rat) (h : x ≤ y) :
+    knapsackRoundUpQuarters x ≤ knapsackRoundUpQuarters y := by
+  unfold knapsackRoundUpQuarters
+  have h4 : 4 * x ≤ 4 * y := Rat.mul_le_mul_of_nonneg_left h (by decide)
+  have hc : (4 * x).ceil ≤ (4 * y).ceil := Rat.ceil_le_iff.2 (Rat.le_trans h4 Rat.le_ceil)
+  have hc' : ((4 * x).ceil : Rat) ≤ ((4 * y).ceil : Rat) := by exact_mod_cast hc
+  rw [Rat.div_def, Rat.div_def]
+  exact Rat.mul_le_mul_of_nonneg_right hc' (by decide +kernel)
+
+/-- WITNESS (why `knapsack_feasible_along` is stated for exact arithmetic): under the monotone, 0-fixing rounding "up to quarters",
+budget 1 and three items of weight 3/8, the play 0, 1, 2 is mask-respecting, the bookkeeping budget stays non-negative
+(1, 3/4, 1/2, 1/4) — and the packed weight ends at 9/8 > 1.  (float32 rounds to nearest with relative error 2⁻²⁴; an
+error-budget form `packed ≤ budget + k·ε` is not proved.) -/
+theorem knapsack_rounding_overshoot_witness :
+    knapsackRoundUpQuarters 0 = 0 ∧
+    LegalPlay knapsackRoundUpQuarters true (generate 3 1 [3/8, 3/8, 3/8] [1, 1, 1]) [0, 1, 2] ∧
+    (statesAlong knapsackRoundUpQuarters true (generate 3 1 [3/8, 3/8, 3/8] [1, 1, 1]) [0, 1, 2]).map
+      (fun s => (s.remaining, packedWeight s)) = [(1, 0), (3/4, 3/8), (1/2, 3/4), (1/4, 9/8)] := by
+  refine ⟨by decide +kernel, by decide +kernel, by decide +kernel⟩
 
 example : Feasible 1 ⟨[1/2, 1/4], [1, 1], [false, true], 3/4⟩ := by decide +kernel
 
